@@ -17,7 +17,7 @@ LEVEL = {
             "`format` into ANY bounded sink returns exactly the full text when it fits and a format error otherwise – never a panic, never a truncated text reported as success (Props/C03Sink, every capacity); "
             "checked constructors, linear arithmetic, f64 scaling, add_days, binary and human-readable (de)serialisation never produce Panic. Trunc/round/month arithmetic no-panic follows from the closed forms of C09–C11 for valid receivers. "
             "One no-panic row per protocol operation whose model function can fail (Props/C03Rows; 60 rows, the other 58 operations are total functions in the model), completeness checked on every run by tools/rows_check.py. "
-            "For the 188 translated functions of date.rs/time.rs/timestamp.rs/interval.rs/oracle.rs/common.rs additionally `Tr.f_safe`: no arithmetic node of the (mechanically translated) Rust body overflows its integer type and no table index is out of bounds, for all valid inputs (Lemmas/TranslatedSafe). "
+            "For the 198 + 12 translated functions of date.rs/time.rs/timestamp.rs/interval.rs/oracle.rs/common.rs additionally `Tr.f_safe`: no arithmetic node of the (mechanically translated) Rust body overflows its integer type and no table index is out of bounds, for all valid inputs (Lemmas/TranslatedSafe). "
             "Tie: every op × pools, generated + byte-random pictures and inputs, all pictures up to length 3/4, blank runs to 1000, long pictures, long non-ASCII payloads, the Display route, band values around cast thresholds, on harness builds with overflow checks on AND off; any `panic` from the crate is a violation."),
     "C04": ("Theorems (complete on the model): every table the formatter indexes (regenerated from the Rust source each run) equals its arithmetic meaning; write_u32 = zero-padded decimal for every u32 and width; "
             "fraction = ⌊µs / 10^(6−p)⌋ (or ·10^(p−6)) through the soft-float for all µs and p ≤ 9; `format = Spec.render` field by field and END TO END from the picture text for every valid value of all six types and EVERY picture (error iff the picture does not compile or a token does not apply). "
@@ -39,7 +39,7 @@ LEVEL = {
     "C11": ("Theorems (complete modulo the recorded finding D1): for all 12 units on Date and Timestamp rounding = truncation or the next boundary, boundaries fixed, later boundary chosen exactly from the documented midpoint, monotone except ISO year, fails ⇔ chosen boundary after the maximum; Oracle = timestamp then floor. "
             "round_century on years ≡ 0 mod 100 is excluded by hypothesis and characterised exactly (known finding D1); Sunday-week rounding before 0001-01-04 is stated as a counterexample theorem (D9). "
             "Tie: as C10 for round_* (exhaustive on dates); crate vs Spec."),
-    "C12": ("Theorems (complete, omega): add/sub_interval_dt = (t ± i) mod 24h for every valid time and EVERY integer interval, result valid, add then sub cancels, whole days neutral, sub_time exact and a valid interval, Time::from(interval) = |i| mod 24h. Mixed Time/IntervalDT comparisons are comparison of µs counts by definition in the model (no theorem; decided by the correspondence stream). "
+    "C12": ("Theorems (complete, omega): add/sub_interval_dt = (t ± i) mod 24h for every valid time and EVERY integer interval, result valid, add then sub cancels, whole days neutral, sub_time exact and a valid interval, Time::from(interval) = |i| mod 24h. Mixed Time/IntervalDT comparisons (`==` and `partial_cmp`, both directions): the translated Rust bodies equal comparison of the µs counts for all arguments (Lemmas/TranslatedCmp). "
             "Tie: all 86,400 seconds × 12+ boundary/random intervals, pools crossed for the mixed comparisons."),
     "C13": ("Theorems (complete): sign/field decomposition with ranges and uniqueness, constructors = classify for all u32 tuples with error order, is_valid ⇔, extract∘ctor = id, negation involutive and range-preserving, signed accessors = sign × field, second() correctly rounded. "
             "Tie: year-month values strided + 300k contiguous at the ends and zero, day-time every second within ±2 days and powers of ten, dense µs sweeps, constructor grids."),
@@ -59,7 +59,7 @@ LEVEL = {
 }
 
 NOTE = ("Trusted: Lean 4.33 kernel; axioms ⊆ {propext, Classical.choice, Quot.sound} (audited per theorem on every run, no native_decide/bv_decide/sorry); "
-        "tools/gen_tables.py (constants, tables, the six serde pictures and the serde buffer size regenerated from /repo/src on every run); tools/rs2lean.py (193 items – the integer core of date/time/timestamp/interval/oracle/common, the sixteen f64 operations onto the soft-float, the NaiveDateTime conversion layer of format.rs, all 75 Trunc/Round functions of the three date types – translated from /repo/src to SqlDt/Translated.lean on every run, each proved equal to the model function for all inputs and overflow-free on valid inputs in the proof files listed in tools/tie_files.json (SqlDt/Lemmas/Translated*.lean); a function the translator cannot handle degrades to 'untranslated' and is tied by correspondence only – the evidence file lists the status per function); the hand-written model SqlDt/Model/*.lean and its correspondence check "
+        "tools/gen_tables.py (constants, tables, the six serde pictures and the serde buffer size regenerated from /repo/src on every run); tools/rs2lean.py (203 items – the integer core of date/time/timestamp/interval/oracle/common, the sixteen f64 operations onto the soft-float, the NaiveDateTime conversion layer of format.rs, all 75 Trunc/Round functions of the three date types, the mixed comparison impls; plus twelve byte-slice leaf functions of format.rs in SqlDt/TranslatedFmt.lean – translated from /repo/src to SqlDt/Translated.lean on every run, each proved equal to the model function for all inputs and overflow-free on valid inputs in the proof files listed in tools/tie_files.json (SqlDt/Lemmas/Translated*.lean); a function the translator cannot handle degrades to 'untranslated' and is tied by correspondence only – the evidence file lists the status per function); the hand-written model SqlDt/Model/*.lean and its correspondence check "
         "(harness/ calls the real crate, lean/Driver.lean runs the model, identical request streams, outputs diffed). The theorems are about the model; on 64-bit/double domains "
         "the tie is boundary + seeded random sampling, on enumerable domains it is exhaustive as stated. Modelled, not verified: chrono clock (parameter), serde_json/bincode transport, "
         "String/StackStr sinks, hardware f64 (soft-float, diffed).")
@@ -78,7 +78,7 @@ def main():
             "engine": "lean-model+correspondence",
             "level_claimed": {"category": "proof", "text": LEVEL[pid], "design_ref": "DESIGN.md section 7, " + pid},
             "level_note": NOTE,
-            "technique": "machine-checked proof in Lean 4 about a model of the crate; the model is tied to /repo's source on every run by a translator (tables, constants, serde pictures and 193 functions (the integer core, the f64 operations onto the soft-float, the NaiveDateTime conversion layer, every truncation/rounding unit of the three date types) regenerated from the Rust, each proved equal to the model function for all inputs and free of intermediate overflow / out-of-bounds indexing on valid inputs) and by differential execution of model and crate on the same request streams",
+            "technique": "machine-checked proof in Lean 4 about a model of the crate; the model is tied to /repo's source on every run by a translator (tables, constants, serde pictures and 203 + 12 functions (the integer core, the f64 operations onto the soft-float, the NaiveDateTime conversion layer, every truncation/rounding unit of the three date types) regenerated from the Rust, each proved equal to the model function for all inputs and free of intermediate overflow / out-of-bounds indexing on valid inputs) and by differential execution of model and crate on the same request streams",
         })
     m = {
         "version": 1,
